@@ -154,6 +154,7 @@ def check_graded(prog, ctx):
                         continue
                     base = (tuple(range(nd - ncon, nd)), tuple(range(ncon)))
                     ccases.append((sp, other, base))
+                    ccases.append((other, sp, (base[1], base[0])))  # the smaller operand first as well: both sign-flip branches
                     if ncon >= 2:
                         ccases.append((sp, other, (tuple(reversed(base[0])), tuple(reversed(base[1])))))
     wits, counts = {}, {}
